@@ -411,6 +411,12 @@ func c14DynamicFailures(r *rand.Rand, base *model.Schema, tag string) []struct{ 
 	sc := scalars[r.Intn(len(scalars))]
 	add("redeclared-scalar-with-directive-then-invalid", fmt.Sprintf("directive @zzFmt%s(p: String) on SCALAR\nscalar %s @zzFmt%s(p: \"iso\")\ntype EmptyZz%s { }", tag, sc, tag, tag))
 	add("redeclared-scalar-with-directive-then-invalid", fmt.Sprintf("scalar %s @deprecated\nunion BadUnionZz%s = Int", sc, tag))
+	if base.Type("TriZz") != nil {
+		// one more interface for a type that has three, in a document that fails after the extension was applied
+		add("extend-implements-then-invalid", fmt.Sprintf("extend type TriZz implements AbZz { fresh%s: Int }\nunion BadUnionZz%s = Int", tag, tag))
+		add("extend-implements-then-invalid", fmt.Sprintf("extend type TriZz implements AbZz { fresh%s: Int }\nextend type TriZz { a: Int }", tag))
+		add("extend-implements-then-invalid", fmt.Sprintf("interface A0Zz%s { b: Int }\nextend type TriZz implements A0Zz%s { fresh%s: Int }\ntype EmptyZz%s { }", tag, tag, tag, tag))
+	}
 	if base.Type("OptZz") != nil {
 		add("extend-input-of-directive-argument-then-invalid", fmt.Sprintf("extend input OptZz { b%s: Int = 2 }\ntype EmptyZz%s { }", tag, tag))
 		add("extend-input-of-directive-argument-then-invalid", fmt.Sprintf("extend input OptZz { c%s: [Int] = [1] }\nunion BadUnionZz%s = Int", tag, tag))
@@ -448,6 +454,19 @@ func runC14(c *run.Ctx) {
 					t.Dirs = append(t.Dirs, model.DirUse{Name: "go", Args: []model.Arg{{Name: "type", Value: "ZzGoTypeOf" + t.Name}}})
 					break
 				}
+			}
+			base.Reindex()
+		}
+		if i%3 != 0 {
+			// an object implementing three interfaces (the list of a type's interfaces is a slice with spare room after the
+			// third), and a fourth interface it could implement whose name sorts between them
+			f := func(n string) []*model.FieldDef { return []*model.FieldDef{{Name: n, Type: model.Named("Int")}} }
+			base.Types = append(base.Types,
+				&model.TypeDef{Kind: model.Interface, Name: "AaZz", Fields: f("a")}, &model.TypeDef{Kind: model.Interface, Name: "BbZz", Fields: f("b")},
+				&model.TypeDef{Kind: model.Interface, Name: "CcZz", Fields: f("c")}, &model.TypeDef{Kind: model.Interface, Name: "AbZz", Fields: f("a")},
+				&model.TypeDef{Kind: model.Object, Name: "TriZz", Interfaces: []string{"AaZz", "BbZz", "CcZz"}, Fields: append(append(f("a"), f("b")...), f("c")...)})
+			if qt := base.Type(base.Query); qt != nil {
+				qt.Fields = append(qt.Fields, &model.FieldDef{Name: "triZz", Type: model.Named("TriZz")}, &model.FieldDef{Name: "ccZz", Type: model.ListOf(model.Named("CcZz"))})
 			}
 			base.Reindex()
 		}
